@@ -118,6 +118,7 @@ type env struct {
 	results  []Outcome
 	methods  []string // stack of user methods being executed
 	sinkCh   chan handoff
+	shOf     map[*hooksPrinter]*pshared // printers this task holds
 }
 
 type handoff struct {
@@ -141,7 +142,7 @@ func curEnv() *env {
 }
 
 func newEnv(plan *Plan, t *task) *env {
-	return &env{t: t, plan: plan, prop: plan.Prop, defs: map[int]*Val{}, stats: newStats()}
+	return &env{t: t, plan: plan, prop: plan.Prop, defs: map[int]*Val{}, stats: newStats(), shOf: map[*hooksPrinter]*pshared{}}
 }
 
 func (e *env) yield(kind int) {
